@@ -180,6 +180,9 @@ def check_case(case):
     return res
 
 
+LAST_ABS = [0.0]
+
+
 def _implicit(res, case, field, C):
     """Implicit problem  r(u, u', t) = u' + c u'^3 - P(u, t) = 0  (nonlinear in the highest derivative, d r / d u' = 1 + 3 c u'^2 > 0, so
     the constraints determine all coefficients).  Oracle: a validity predicate - the lifted residual (its 0th..(num-1)-th total time
@@ -225,6 +228,7 @@ def _implicit(res, case, field, C):
         Cabs = np.abs(C2).tolist()
         bd = series.total_derivatives_along_jet(f2, Cabs, [list(map(lambda v: abs(float(v)), row)) for row in jet[: num + 1]], abs(t0), num - 1, one=1.0)
         ex, bd = np.asarray(ex, float), np.asarray(bd, float)
+        LAST_ABS[0] = float(np.max(np.abs(ex)))
         # relative to the sum of the absolute terms, with an absolute floor (a component whose terms all vanish has nothing to be relative to)
         return float(np.max(np.abs(ex) / (bd + 1e-3 * (1.0 + float(np.max(np.abs(jet)))))))
 
@@ -251,7 +255,9 @@ def _implicit(res, case, field, C):
             jet_def, info_def = run(None)
         r_def = lifted_residual(jet_def) if np.all(np.isfinite(jet_def)) else np.inf
         res.metric("implicit:residual(default)/tol", r_def / 1e-5)
-        if iters_ref <= 8 and not r_def <= 1e-5:
+        # the default solver stops on an *absolute* residual of 1e-6 (documented default tolerance): a residual below 1e-5 in absolute
+        # terms is what it promises, whatever its size relative to the terms (false alarm at seed 7: relative 6e-4, absolute 6e-7)
+        if iters_ref <= 8 and not r_def <= 1e-5 and not LAST_ABS[0] <= 1e-5:
             it = info_def.get("iters") if isinstance(info_def, dict) else None
             res.violate("implicit:default_solver", f"jetexpand_residual({num}) with its default solver leaves a lifted residual of relative size {r_def:.2e} "
                         f"(reported iterations: {it}); an explicit budget converges in {iters_ref} iterations to {r_ref:.1e}")
